@@ -163,6 +163,7 @@ fn est_steps(op: &str, slow: bool) -> u64 {
   match op.split(' ').next().unwrap_or("") {
     "fill" | "verify" | "flush" => 0,
     "clone" | "refs" | "set_minseg" | "inc_discarded" | "clear" | "rd" | "rd_var" | "checksum" => 1,
+    "slices" => 2,
     "drop_arena" | "rewind" => 2,
     "alloc_bytes_owned" => 4,
     o if o.starts_with("alloc") => {
@@ -362,7 +363,10 @@ impl Gen {
         let mid = self.rng.range(top, reach.max(top + 1));
         let around = self.rng.pick(&[top, reach, mid]);
         let off = (around + self.rng.range(0, 4)).saturating_sub(self.rng.range(0, 6));
-        if self.rng.chance(12) {
+        if self.rng.chance(10) {
+          // the lengths of allocated_memory() / data() / memory() as this call sees them
+          ops.push("slices".to_string());
+        } else if self.rng.chance(12) {
           // the checksum of the allocated memory as this call sees it
           ops.push(format!("checksum {}", self.rng.pick(&["crc32", "ordsum"])));
         } else if self.rng.chance(75) {
